@@ -312,8 +312,77 @@ func (g *Gen) nilCheck(st *State, p *Val, pos token.Pos, text string) {
 	if strings.HasPrefix(p.S, "|G!") || strings.HasPrefix(p.S, "(|sub!") || strings.HasPrefix(p.S, "(|ea!") || g.knownNonNil[p.S] {
 		return
 	}
+	// an earlier obligation for the same term covers this one only if it sits in a dominating block
+	var cur *ssa.BasicBlock
+	if g.curInstr != nil {
+		cur = g.curInstr.Block()
+	}
+	for _, b := range g.checkedNonNil[p.S] {
+		if cur != nil && (b == cur || b.Dominates(cur)) {
+			return
+		}
+	}
 	g.oblige("nil", text, pos, st.reach, not(eq(p.S, "0")))
-	g.knownNonNil[p.S] = true
+	if cur != nil {
+		g.checkedNonNil[p.S] = append(g.checkedNonNil[p.S], cur)
+	}
+}
+
+// argsNonNil: default precondition of the safety sweep at a call of an in-repo function or interface
+// method: pointer/interface arguments are non-nil unless the callee's contract declares them nilable.
+func (g *Gen) argsNonNil(st *State, c *ssa.Call, sp *FuncSpec, fn *ssa.Function, args []*Val, calleeName string) {
+	if g.hooks == nil || !g.hooks.paramsNonNil {
+		return
+	}
+	cc := c.Common()
+	inRepo := false
+	if fn != nil {
+		root := fn
+		for root.Parent() != nil {
+			root = root.Parent()
+		}
+		inRepo = root.Pkg != nil && strings.HasPrefix(root.Pkg.Pkg.Path(), modPath) && fn.Parent() == nil
+	} else if cc.IsInvoke() {
+		if n, ok := cc.Value.Type().(*types.Named); ok && n.Obj().Pkg() != nil {
+			inRepo = strings.HasPrefix(n.Obj().Pkg().Path(), modPath)
+		}
+	}
+	if !inRepo {
+		return
+	}
+	var names []string
+	if sp != nil {
+		names = g.P.paramNames(sp, fn, cc)
+	} else if fn != nil {
+		for _, p := range fn.Params {
+			names = append(names, p.Name())
+		}
+	} else {
+		names = append(names, "recv")
+		ps := cc.Signature().Params()
+		for i := 0; i < ps.Len(); i++ {
+			names = append(names, ps.At(i).Name())
+		}
+	}
+	for i, a := range args {
+		if a == nil || (a.K != KPtr && a.K != KIface) {
+			continue
+		}
+		if cc.IsInvoke() && i == 0 {
+			continue // the receiver of an interface call has its own nil obligation
+		}
+		pn := fmt.Sprintf("arg%d", i)
+		if i < len(names) && names[i] != "" {
+			pn = names[i]
+		}
+		if sp != nil && sp.Nilable[pn] {
+			continue
+		}
+		if (isConstTerm(a.S) && a.S != "0") || strings.HasPrefix(a.S, "|G!") || strings.HasPrefix(a.S, "(|sub!") || strings.HasPrefix(a.S, "(|ea!") || g.knownNonNil[a.S] {
+			continue
+		}
+		g.oblige("pre@call", calleeName+":nonnil "+pn, c.Pos(), st.reach, not(eq(a.S, "0")))
+	}
 }
 
 // frameStore is a hook for write-frame obligations (C12); filled by frames.go
